@@ -1,0 +1,37 @@
+#ifndef KALIGN_VERIF_H
+#define KALIGN_VERIF_H
+
+/* Verification event hooks. Compiled in only with -DKALIGN_VERIF; without it
+   every KALIGN_VERIF_EVENT expands to nothing and no symbol is referenced.
+   The callback pointer is defined by the verification harness, not here. */
+
+#define KV_RUN_BEGIN     1   /* obj = msa                                   */
+#define KV_RUN_END       2   /* obj = msa                                   */
+#define KV_MERGE_BEGIN   3   /* obj = msa, a,b = input nodes, c = output    */
+#define KV_MERGE_END     4   /* obj = msa, a,b,c; sip[c]/nsip[c] are filled */
+#define KV_FWD_BEGIN     5   /* obj = aln_mem                               */
+#define KV_FWD_END       6
+#define KV_BWD_BEGIN     7
+#define KV_BWD_END       8
+#define KV_MEET_BEGIN    9
+#define KV_MEET_END      10
+#define KV_SPLIT_BEGIN   11  /* obj = result slot (struct kmeans_result**)  */
+#define KV_SPLIT_END     12
+#define KV_REDUCE_BEGIN  13  /* obj = first result slot                     */
+#define KV_KM_ENTER      14  /* obj = node slot (struct node**), a = num_samples */
+#define KV_KM_LEAVE      15  /* obj = node slot                             */
+#define KV_KM_JOIN       16  /* obj = node slot, a/b unused; children joined */
+#define KV_DIST_CELL     17  /* obj = dm, a = i, b = j                      */
+
+#ifdef KALIGN_VERIF
+extern void (*kalign_verif_cb)(int kind, const void *obj, int a, int b, int c);
+#define KALIGN_VERIF_EVENT(kind,obj,a,b,c) do {                         \
+                if(kalign_verif_cb){                                    \
+                        kalign_verif_cb((kind),(obj),(a),(b),(c));      \
+                }                                                       \
+        } while (0)
+#else
+#define KALIGN_VERIF_EVENT(kind,obj,a,b,c) do { } while (0)
+#endif
+
+#endif
